@@ -159,7 +159,11 @@ func runC10(p *core.Prog, r *core.Report) {
 			r.Check(ok2, "C10-R3", "Parse: error of "+fnName(callee)+" is propagated", p.Pos(in.Pos()), "tested and returned", "the error of "+fnName(callee)+" is dropped: a malformed argument vector would be accepted")
 		})
 		// flagMap lookups in the scanner
-		fm := fieldByName(c.FlagSet, "flagMap")
+		fm := flagMapField(c.FlagSet)
+		if fm == nil {
+			r.Fail("C10-R3", "anchor: the flag index of FlagSet", "-", "no map[string]… field found in FlagSet")
+			return
+		}
 		for _, f := range c.ViewFns {
 			sx.Instrs(f, func(in ssa.Instruction) {
 				lk, ok := in.(*ssa.Lookup)
@@ -336,7 +340,7 @@ func runC10(p *core.Prog, r *core.Report) {
 				// "negative numbers", say) makes defined flags unreachable and undefined ones silently positional
 				{
 					var lookups = map[ssa.Instruction]bool{}
-					fmF := fieldByName(c.FlagSet, "flagMap")
+					fmF := flagMapField(c.FlagSet)
 					sx.Instrs(scanner, func(in ssa.Instruction) {
 						if lk, ok := in.(*ssa.Lookup); ok && fmF != nil && sx.Origins(lk.X)["field:FlagSet."+fmF.Name()] {
 							lookups[in] = true
@@ -466,116 +470,122 @@ func runC10(p *core.Prog, r *core.Report) {
 					if a.Kind != "write" {
 						continue
 					}
-					cell, ok := a.Val.(*ssa.Alloc)
-					if !ok {
-						continue
+					// the recorded text lives in one local (`&argValue`) or in one of several (`text := …; argValue = &text`,
+					// the pointer merged at the assignment; a nil alternative records nothing)
+					var cells []*ssa.Alloc
+					for _, lv := range leaves(a.Val) {
+						if al, ok := lv.(*ssa.Alloc); ok {
+							cells = append(cells, al)
+						}
 					}
-					stores, _ := sx.CellStores(cell)
 					n := 0
-					for _, sv := range stores {
-						n++
-						cst := fmt.Sprintf("command-line value #%d recorded in %s", n, fnName(f))
-						okV, why := false, ""
-						switch x := sv.(type) {
-						case *ssa.Const:
-							okV, why = true, "constant "+x.String()
-						case *ssa.Slice:
-							if isStringT(x.X.Type()) && x.High == nil {
-								okV, why = true, "the rest of the token after the first '=' ("+sx.ValPath(x.X)+"["+sx.ValPath(x.Low)+":])"
-							} else {
-								why = "a cut-out of the token that stops before its end: a value containing '=' (or anything after the cut) is lost"
-							}
-						case *ssa.UnOp:
-							if sx.Origins(x)["field:FlagSet."+args.Name()] {
-								okV, why = true, "the next token, unchanged"
-							}
-						case *ssa.Extract:
-							if cc, isC := x.Tuple.(*ssa.Call); isC && sx.CalleeName(cc) == "strings.Cut" && x.Index == 1 {
-								okV, why = true, "strings.Cut: everything after the first '='"
-							}
-						}
-						if !okV && why == "" {
-							why = "recorded value " + short(sx.ValPath(sv)) + " is not the untouched remainder of the token (e.g. one element of strings.Split): values containing '=' are truncated or rejected"
-						}
-						r.Check(okV, "C10-R6", cst, p.Pos(a.Instr.Pos()), why, why)
-						// R7: taking the next token must not depend on its content
-						if u, isU := sv.(*ssa.UnOp); isU && okV {
-							var consume ssa.Instruction
-							for _, rr := range *cell.Referrers() {
-								if st, ok := rr.(*ssa.Store); ok && st.Val == ssa.Value(u) {
-									consume = st
+					for _, cell := range cells {
+						stores, _ := sx.CellStores(cell)
+						for _, sv := range stores {
+							n++
+							cst := fmt.Sprintf("command-line value #%d recorded in %s", n, fnName(f))
+							okV, why := false, ""
+							switch x := sv.(type) {
+							case *ssa.Const:
+								okV, why = true, "constant "+x.String()
+							case *ssa.Slice:
+								if isStringT(x.X.Type()) && x.High == nil {
+									okV, why = true, "the rest of the token after the first '=' ("+sx.ValPath(x.X)+"["+sx.ValPath(x.Low)+":])"
+								} else {
+									why = "a cut-out of the token that stops before its end: a value containing '=' (or anything after the cut) is lost"
+								}
+							case *ssa.UnOp:
+								if sx.Origins(x)["field:FlagSet."+args.Name()] {
+									okV, why = true, "the next token, unchanged"
+								}
+							case *ssa.Extract:
+								if cc, isC := x.Tuple.(*ssa.Call); isC && sx.CalleeName(cc) == "strings.Cut" && x.Index == 1 {
+									okV, why = true, "strings.Cut: everything after the first '='"
 								}
 							}
-							if consume != nil {
-								var dep []string
-								for _, b := range f.Blocks {
-									iff, ok := b.Instrs[len(b.Instrs)-1].(*ssa.If)
-									if !ok {
-										continue
+							if !okV && why == "" {
+								why = "recorded value " + short(sx.ValPath(sv)) + " is not the untouched remainder of the token (e.g. one element of strings.Split): values containing '=' are truncated or rejected"
+							}
+							r.Check(okV, "C10-R6", cst, p.Pos(a.Instr.Pos()), why, why)
+							// R7: taking the next token must not depend on its content
+							if u, isU := sv.(*ssa.UnOp); isU && okV {
+								var consume ssa.Instruction
+								for _, rr := range *cell.Referrers() {
+									if st, ok := rr.(*ssa.Store); ok && st.Val == ssa.Value(u) {
+										consume = st
 									}
-									inspects := false
-									// only the *next* token counts: a string loaded from args after args was advanced past the flag token
-									advanced := sx.Cut{Instrs: map[ssa.Instruction]bool{}}
-									sx.Instrs(f, func(i3 ssa.Instruction) {
-										if st, ok := i3.(*ssa.Store); ok {
-											if fa2, ok := st.Addr.(*ssa.FieldAddr); ok && sx.FieldOf(fa2) == args {
-												advanced.Instrs[i3] = true
+								}
+								if consume != nil {
+									var dep []string
+									for _, b := range f.Blocks {
+										iff, ok := b.Instrs[len(b.Instrs)-1].(*ssa.If)
+										if !ok {
+											continue
+										}
+										inspects := false
+										// only the *next* token counts: a string loaded from args after args was advanced past the flag token
+										advanced := sx.Cut{Instrs: map[ssa.Instruction]bool{}}
+										sx.Instrs(f, func(i3 ssa.Instruction) {
+											if st, ok := i3.(*ssa.Store); ok {
+												if fa2, ok := st.Addr.(*ssa.FieldAddr); ok && sx.FieldOf(fa2) == args {
+													advanced.Instrs[i3] = true
+												}
 											}
-										}
-									})
-									isNext := func(v ssa.Value) bool {
-										ld, ok := v.(*ssa.UnOp)
-										if !ok || !sx.Origins(v)["field:FlagSet."+args.Name()] {
-											return false
-										}
-										hdr := outerLoop(f)
-										if hdr == nil {
-											return false
-										}
-										return sx.MustPass(f, hdr.Instrs[0], ld, advanced) && hdr.Instrs[0] != ssa.Instruction(ld)
-									}
-									var look func(v ssa.Value, d int)
-									look = func(v ssa.Value, d int) {
-										if d > 4 || v == nil {
-											return
-										}
-										switch y := v.(type) {
-										case *ssa.Call:
-											if isBuiltin(y, "len") {
-												return // counting tokens is fine
+										})
+										isNext := func(v ssa.Value) bool {
+											ld, ok := v.(*ssa.UnOp)
+											if !ok || !sx.Origins(v)["field:FlagSet."+args.Name()] {
+												return false
 											}
-											for _, ar := range y.Call.Args {
-												if isStringT(ar.Type()) && isNext(ar) {
+											hdr := outerLoop(f)
+											if hdr == nil {
+												return false
+											}
+											return sx.MustPass(f, hdr.Instrs[0], ld, advanced) && hdr.Instrs[0] != ssa.Instruction(ld)
+										}
+										var look func(v ssa.Value, d int)
+										look = func(v ssa.Value, d int) {
+											if d > 4 || v == nil {
+												return
+											}
+											switch y := v.(type) {
+											case *ssa.Call:
+												if isBuiltin(y, "len") {
+													return // counting tokens is fine
+												}
+												for _, ar := range y.Call.Args {
+													if isStringT(ar.Type()) && isNext(ar) {
+														inspects = true
+													}
+													look(ar, d+1)
+												}
+											case *ssa.BinOp:
+												look(y.X, d+1)
+												look(y.Y, d+1)
+											case *ssa.UnOp:
+												look(y.X, d+1)
+											case *ssa.Index:
+												if isStringT(y.X.Type()) && isNext(y.X) {
 													inspects = true
 												}
-												look(ar, d+1)
+											case *ssa.Lookup:
+												if isStringT(y.X.Type()) && isNext(y.X) {
+													inspects = true
+												}
 											}
-										case *ssa.BinOp:
-											look(y.X, d+1)
-											look(y.Y, d+1)
-										case *ssa.UnOp:
-											look(y.X, d+1)
-										case *ssa.Index:
-											if isStringT(y.X.Type()) && isNext(y.X) {
-												inspects = true
-											}
-										case *ssa.Lookup:
-											if isStringT(y.X.Type()) && isNext(y.X) {
-												inspects = true
+										}
+										look(iff.Cond, 0)
+										if !inspects {
+											continue
+										}
+										for idx := 0; idx < 2; idx++ {
+											if sx.MustPass(f, nil, consume, sx.Cut{Edges: map[sx.Edge]bool{{From: b, Idx: idx}: true}}) {
+												dep = append(dep, p.Pos(iff.Pos()))
 											}
 										}
 									}
-									look(iff.Cond, 0)
-									if !inspects {
-										continue
-									}
-									for idx := 0; idx < 2; idx++ {
-										if sx.MustPass(f, nil, consume, sx.Cut{Edges: map[sx.Edge]bool{{From: b, Idx: idx}: true}}) {
-											dep = append(dep, p.Pos(iff.Pos()))
-										}
-									}
+									r.Check(len(dep) == 0, "C10-R7", "taking the next token as the value does not depend on what the token looks like ("+fnName(f)+")", p.Pos(consume.Pos()), "consumed whenever a token is left", "whether the next token is taken as the flag's value depends on its content (test at "+strings.Join(dep, ", ")+"): values that look like flags (-5, -, --) are rejected")
 								}
-								r.Check(len(dep) == 0, "C10-R7", "taking the next token as the value does not depend on what the token looks like ("+fnName(f)+")", p.Pos(consume.Pos()), "consumed whenever a token is left", "whether the next token is taken as the flag's value depends on its content (test at "+strings.Join(dep, ", ")+"): values that look like flags (-5, -, --) are rejected")
 							}
 						}
 					}
@@ -683,4 +693,21 @@ func runC10(p *core.Prog, r *core.Report) {
 			r.Check(len(problems) == 0, "C10-R5", nm+".Set parses with "+wantFn+" at its own width", p.FuncPos(set), fmt.Sprintf("%s, bit size %d", wantFn, width), strings.Join(problems, "; "))
 		}
 	}
+}
+
+// flagMapField: the name → flag index of the flag set (by name, else the one map field keyed by string).
+func flagMapField(fs *types.Named) *types.Var {
+	if f := fieldByName(fs, "flagMap"); f != nil {
+		return f
+	}
+	var found *types.Var
+	for _, f := range structFields(fs) {
+		if m, ok := f.Type().Underlying().(*types.Map); ok && m.Key().String() == "string" {
+			if found != nil {
+				return nil
+			}
+			found = f
+		}
+	}
+	return found
 }
